@@ -212,7 +212,6 @@ UNCHANGED_DS = 'final(self).data@ == old(self).data@ && final(self).keys@ == old
 FULL_REQ = [('kd_wf', 'old(self).kd_wf()'),
             ('keys_wf', 'idmap_wf(old(self).keys@, Some(old(self).key_idmap.data@))'),
             ('data_wf', 'idmap_wf(old(self).data@, Some(old(self).data_idmap.data@))'),
-            ('fits', 'old(self).data@.len() < AnnotationDataHandle::hmax() && old(self).keys@.len() < DataKeyHandle::hmax()'),
             ('no_merge', '!old(self).config.merge'),
             # ids that look like temporary ids are outside the claim (stated precondition of StoreFor::insert)
             ('ids_not_temp_form', 'bi_text(id) is Some ==> !is_temp_form::<AnnotationData>(old(self).data_idmap.resolve_temp_ids, bi_text(id).unwrap())'),
@@ -451,7 +450,6 @@ def build():
                      ('keys_wf', KEYS_WF.replace('self.', 'old(self).')),
                      ('data_wf', 'idmap_wf(old(self).data@, Some(old(self).data_idmap.data@))'),
                      ('key_live', 'live(old(self).keys@, datakey_handle.idx() as int)'),
-                     ('fits', 'old(self).data@.len() < AnnotationDataHandle::hmax()'),
                      ('id_free', 'bi_text(id) is Some ==> !is_temp_form::<AnnotationData>(old(self).data_idmap.resolve_temp_ids, bi_text(id).unwrap()) && !old(self).data_idmap.data@.contains_key(bi_text(id).unwrap())')],
            ensures=[('reuses', '!newkey && id is None && safety && has_pair(old(self).data@, datakey_handle, value) ==> '
                                'r is Ok && final(self).data@ == old(self).data@ && final(self).key_data_map@ == old(self).key_data_map@ && final(self).data_idmap.data@ == old(self).data_idmap.data@ '
